@@ -301,12 +301,31 @@ def r6(ctx):
     relabel(ctx, "C08.R6", c05.r1)
 
 
+def _r6_parts():
+    from .shared import relabel
+    from . import c05
+    from .shared import relabel_parts
+    return relabel_parts("C08.R6", c05.r1)
+
+
+r6.parts = _r6_parts
+
 
 def s1(ctx):
     """shared mechanism: all parts of one build agree on the output type before an encoding is shared between them (pooled-attribute guard, = C18.R2)"""
     from .shared import relabel
     from . import c18
     relabel(ctx, "C08.S1", c18.r2)
+
+
+def _s1_parts():
+    from .shared import relabel
+    from . import c18
+    from .shared import relabel_parts
+    return relabel_parts("C08.S1", c18.r2)
+
+
+s1.parts = _s1_parts
 
 
 RULES = [("C08.R1", r1), ("C08.R2", r2), ("C08.R3", r3), ("C08.R4", r4), ("C08.R5", r5), ("C08.R6", r6), ("C08.S1", s1)]
